@@ -87,6 +87,7 @@ type shardResult struct {
 	Violations  []Violation      `json:"violations"`
 	VioTotal    map[string]int64 `json:"vio_total"`
 	NtCapped    bool             `json:"nt_capped"`
+	Bulk        int64            `json:"bulk_distinct"`
 	Notes       []string         `json:"notes"`
 }
 
@@ -143,6 +144,10 @@ func (c *Case) NontrivialHash(h uint64) {
 	}
 	c.sh.nt[h] = struct{}{}
 }
+
+// NontrivialBulk adds n cases that are distinct by construction (disjoint
+// enumeration ranges) without storing their hashes.
+func (c *Case) NontrivialBulk(n int64) { c.sh.res.Bulk += n }
 
 // Sample records an example case (first few per shard are kept).
 func (c *Case) Sample(v any) {
@@ -542,6 +547,7 @@ func runParent(spec Spec, tier string, seed int64) int {
 			continue
 		}
 		agg.Evaluations += r.Evaluations
+		agg.Bulk += r.Bulk
 		agg.Cases += r.Cases
 		for k, v := range r.Counts {
 			agg.Counts[k] += v
@@ -607,8 +613,9 @@ func runParent(spec Spec, tier string, seed int64) int {
 
 	rdir := filepath.Join(vdir, "work", "replay")
 	os.MkdirAll(rdir, 0o755)
+	maxVio := int(envInt("VERIF_MAXVIO", 10))
 	for i, v := range unknown {
-		if i >= 10 {
+		if i >= maxVio {
 			break
 		}
 		p := filepath.Join(rdir, fmt.Sprintf("%s-%s-%d-%d.json", spec.Prop, tier, seed, i))
@@ -623,7 +630,7 @@ func runParent(spec Spec, tier string, seed int64) int {
 	}
 
 	// evidence
-	dn := len(nt)
+	dn := len(nt) + int(agg.Bulk)
 	floor := 2
 	if spec.Floor != nil {
 		floor = spec.Floor(tier)
